@@ -303,7 +303,7 @@ Section Order.
     | RName name =>
         exists k pre item post n1 n',
           wild = pre ++ item :: post /\ passed_over v taken num (cycles k wild ++ pre) n1 /\ chosen v taken n1 item name n' /\
-          s' = {| ph := PWild wild g n' (passes + N.of_nat k + 1); vars := g; inval := taken ++ [name] |} /\
+          s' = {| ph := PWild wild g n' (if legacy_passes c then passes + N.of_nat k + 1 else 0)%N; vars := g; inval := taken ++ [name] |} /\
           (k = O \/ passes + N.of_nat k <= 100)%N
     | RRaise e =>
         (exists k n', e = K_Bail /\ passed_over v taken num (cycles (S k) wild) n' /\ (100 < passes + N.of_nat k + 1)%N /\
@@ -317,7 +317,7 @@ Section Order.
     cbn [wild_loop] in H. pose proof (wild_for_sound g taken wild num v Hn) as W.
     destruct (wild_for c g num v taken wild) as [name num' v' taken'|num' v'|e v'].
     - inversion H; subst. destruct W as [pre [item [post [n1 [A [B [C [D E]]]]]]]]. subst.
-      exists O, pre, item, post, n1, num'. cbn [cycles app]. repeat split; auto. f_equal. f_equal. lia.
+      exists O, pre, item, post, n1, num'. cbn [cycles app]. repeat split; auto. f_equal. f_equal. destruct (legacy_passes c); [lia|reflexivity].
     - destruct W as [W1 W2]. subst v'. destruct (100 <? passes + 1)%N eqn:Hb.
       + inversion H; subst. left. exists O, num'. cbn [cycles]. rewrite app_nil_r. apply N.ltb_lt in Hb. repeat split; auto. lia.
       + apply N.ltb_ge in Hb. eapply IH in H; [| exact Hn | lia | lia].
@@ -325,7 +325,7 @@ Section Order.
         * destruct H as [k [pre [item [post [n1 [n' [A [B [C [D E]]]]]]]]]].
           exists (S k), pre, item, post, n1, n'. split; [exact A|]. split.
           { cbn [cycles]. rewrite <- app_assoc. eapply passed_over_app; eauto. }
-          split; [exact C|]. split; [rewrite D; f_equal; f_equal; lia | right; lia].
+          split; [exact C|]. split; [rewrite D; f_equal; f_equal; destruct (legacy_passes c); [lia|reflexivity] | right; lia].
         * destruct H as [[k [n' [A [B [C D]]]]] | [k [pre [item [post [n1 [A [B C]]]]]]]].
           { left. exists (S k), n'. split; [exact A|]. split.
             - change (cycles (S (S k)) wild) with (wild ++ cycles (S k) wild). eapply passed_over_app; eauto.
@@ -394,15 +394,15 @@ Definition stage (p : phase) : nat :=
 
 Lemma wild_loop_phase : forall fuel c wild g num v taken passes r s',
   wild_loop fuel c wild g num v taken passes = (r, s') ->
-  (exists n' p', ph s' = PWild wild g n' p' /\ (passes < p')%N /\ exists name, r = RName name) \/ ph s' = PDead.
+  (exists n' p', ph s' = PWild wild g n' p' /\ exists name, r = RName name) \/ ph s' = PDead.
 Proof.
   induction fuel as [|f IH]; intros c wild g num v taken passes r s' H; cbn [wild_loop] in H.
   - inversion H; subst. right. reflexivity.
   - destruct (wild_for c g num v taken wild) as [name num' v' taken'|num' v'|e v'].
-    + inversion H; subst. left. exists num', (passes + 1)%N. cbn. split; [reflexivity|]. split; [lia|]. eauto.
+    + inversion H; subst. left. eexists num', _. cbn. split; [reflexivity|]. eauto.
     + destruct (100 <? passes + 1)%N.
       * inversion H; subst. right. reflexivity.
-      * apply IH in H. destruct H as [[n' [p' [A [B C]]]]|D]; [left|right; exact D]. exists n', p'. split; [exact A|]. split; [lia|exact C].
+      * apply IH in H. exact H.
     + inversion H; subst. right. reflexivity.
 Qed.
 
@@ -412,7 +412,7 @@ Lemma static_loop_phase : forall c wild g taken rest num v r s',
   (exists n' p', ph s' = PWild wild g n' p' /\ exists name, r = RName name) \/ ph s' = PDead.
 Proof.
   intros c wild g taken rest. induction rest as [|item rest IH]; intros num v r s' H; cbn [static_loop] in H.
-  - apply wild_loop_phase in H. destruct H as [[n' [p' [A [_ C]]]]|D]; [right; left; eauto | right; right; exact D].
+  - apply wild_loop_phase in H. destruct H as [[n' [p' [A C]]]|D]; [right; left; eauto | right; right; exact D].
   - destruct (try_item c false g num v taken item) as [name num' v' taken'|num' v'|v'|k].
     + inversion H; subst. left. exists [], item, rest, num', name. auto.
     + apply IH in H. destruct H as [[pre [it [rest' [n' [name [A [B C]]]]]]]|[H|H]]; [left|right;left;exact H|right;right;exact H].
@@ -459,7 +459,7 @@ Proof.
       * intros r1 w1 g1 n1 E. inversion E; subst. exists (pre ++ item :: r1). split; [reflexivity|]. eauto.
     + rewrite A. cbn. repeat split; auto. intros ? ? ? ? E; discriminate.
     + rewrite D. cbn. repeat split; auto. intros ? ? ? ? E; discriminate.
-  - subst w. apply wild_loop_phase in H. destruct H as [[n' [p' [A [B C]]]]|D].
+  - subst w. apply wild_loop_phase in H. destruct H as [[n' [p' [A C]]]|D].
     + rewrite A. cbn. repeat split; auto. intros ? ? ? ? E; discriminate.
     + rewrite D. cbn. repeat split; auto. intros ? ? ? ? E; discriminate.
   - inversion H; subst. cbn. repeat split; auto. intros ? ? ? ? E; discriminate.
@@ -1020,7 +1020,7 @@ Definition wild_outcome (c : cfg) (wild : list str) (g : ns) (num : N) (v : ns) 
       (* k fruitless passes, then the candidates before [item] in the deciding pass: all passed over; [item] is bound and fresh *)
       exists k pre item post n1 n',
         wild = pre ++ item :: post /\ passed_over c v taken num (cycles k wild ++ pre) n1 /\ chosen c v taken n1 item name n' /\
-        s' = {| ph := PWild wild g n' (passes + N.of_nat k + 1); vars := g; inval := taken ++ [name] |} /\
+        s' = {| ph := PWild wild g n' (if legacy_passes c then passes + N.of_nat k + 1 else 0)%N; vars := g; inval := taken ++ [name] |} /\
         (k = O \/ passes + N.of_nat k <= 100)%N
   | RRaise e =>
       (* the error: every candidate of k+1 complete passes was passed over and the pass counter exceeded 100 ... *)
@@ -1083,7 +1083,7 @@ Theorem wildcard_request_complete : forall c s b wild g num passes pre item post
   legacy_reset c = false -> ph s = PWild wild g num passes -> lookup k_num (update (vars s) b) = None ->
   wild = pre ++ item :: post -> passed_over c (update (vars s) b) (inval s) num pre n1 ->
   chosen c (update (vars s) b) (inval s) n1 item name n' ->
-  request c s b = (RName name, {| ph := PWild wild g n' (passes + 1); vars := g; inval := inval s ++ [name] |}).
+  request c s b = (RName name, {| ph := PWild wild g n' (if legacy_passes c then passes + 1 else 0)%N; vars := g; inval := inval s ++ [name] |}).
 Proof.
   intros c s b wild g num passes pre item post n1 name n' Hr Hph Hn Hw P C. unfold request. rewrite Hph.
   unfold pass_fuel. cbn [wild_loop]. subst wild.
@@ -1093,8 +1093,8 @@ Qed.
 (* the legacy behaviour (before fix-1): a skipped candidate resets the namespace, so a later alternative whose variable IS
    bound by the caller is reported unbound.  Template [e, $i] (already normalised), second request binds i = "a". *)
 Theorem legacy_reset_refuted :
-  let c0 := {| cs := None; ext := []; legacy_reset := true; legacy_words := false |} in
-  let c1 := {| cs := None; ext := []; legacy_reset := false; legacy_words := false |} in
+  let c0 := {| cs := None; ext := []; legacy_reset := true; legacy_words := false; legacy_passes := false |} in
+  let c1 := {| cs := None; ext := []; legacy_reset := false; legacy_words := false; legacy_passes := false |} in
   let files := [FList [[101]; [36; 123; 105; 125]]] in
   let s0 := {| ph := PFresh files; vars := []; inval := [] |} in
   let reqs := [[]; [([105], [97])]] in
@@ -1913,3 +1913,14 @@ Qed.
 (* the extension is added exactly when the name has none *)
 Theorem add_extension_spec : forall ext f, add_extension ext f = if has_ext f then f else f ++ ext.
 Proof. reflexivity. Qed.
+
+(* the legacy pass counter (before fix-3): after 101 issued names the first collision is fatal although the next number is free.
+   Template [s${num}], reserved "s102", 102 requests. *)
+Theorem legacy_passes_refuted :
+  let c0 := {| cs := None; ext := []; legacy_reset := false; legacy_words := false; legacy_passes := true |} in
+  let c1 := {| cs := None; ext := []; legacy_reset := false; legacy_words := false; legacy_passes := false |} in
+  let s0 := {| ph := PFresh [FList [[115; 36; 123; 110; 117; 109; 125]]]; vars := []; inval := [[115; 49; 48; 50]] |} in
+  let reqs := repeat [] 102 in
+  last (map fst (fst (run c0 s0 reqs))) RNone = RRaise K_Bail /\
+  last (map fst (fst (run c1 s0 reqs))) RNone = RName [115; 49; 48; 51].
+Proof. vm_compute. split; reflexivity. Qed.
